@@ -84,3 +84,17 @@ Check C15_main_run_is_run_with :
   forall builtins o version a input, run builtins o version a input = run_with builtins o version warning_messages a input.
 Print Assumptions C15_main_run_is_run_with.
 
+(** Non-vacuity: fish, `cmd a <U>;` + an unused definition: two warnings (Undefined at 1:7, Unused at
+    2:1, in that order), then the script write and exit 0; the trace minus warnings has two effects. *)
+Definition ex_o : oracles := mkoracles [] 4096 [] [] [] "sig".
+Example ex_C15c_inhabited :
+  match run builtins ex_o "1.0" (mkargs false (Some "g.usage") None (Some "out.fish") None None None None)
+            (Some (String.append "cmd a <U>;" (String (Ascii.ascii_of_nat 10) "<X> ::= b;"))) with
+  | Ok ([Stderr (SLocated m1 r1); Stderr (SLocated m2 r2); Write (ToFile p) (KScript (COpaque Fish _ _)); Exit 0%N] as t) =>
+      m_warning m1 && m_warning m2 && String.eqb (m_label m1) "Undefined" && String.eqb (m_label m2) "Unused"
+      && String.eqb (r_header r1) "g.usage:1:7:" && String.eqb (r_header r2) "g.usage:2:1:" && String.eqb p "out.fish"
+      && Nat.eqb (List.length (warnings_of t)) 2 && Nat.eqb (List.length (strip_warnings t)) 2
+  | _ => false
+  end = true.
+Proof. vm_compute. reflexivity. Qed.
+Print Assumptions ex_C15c_inhabited.
